@@ -810,6 +810,29 @@ func filterRules(c *core.Ctx, pkg string, pair bool) {
 			c.Fail("eager-position", name, lastPos(p), "a non-empty result must be {Seq: seq, f: f} positioned on an element for which f held; found %s", short(lit))
 		}
 	}
+	// every pass of the skipping loop: the predicate failed on the current element, then the iterator advanced
+	// successfully, once each (a pass that does not advance never ends and tests the same element again)
+	for _, h := range an.Headers {
+		for _, p := range an.Segs[h] {
+			if p.To == nil {
+				continue
+			}
+			var users, nexts []itEv
+			for _, e := range iterEvents(p) {
+				switch e.kind {
+				case "user":
+					users = append(users, e)
+				case "next":
+					nexts = append(nexts, e)
+				}
+			}
+			good := len(users) == 1 && len(nexts) == 1 && polarity(p, nexts[0].st.R) > 0 && polarity(p, users[0].st.R) < 0
+			if !good {
+				ok = false
+				c.Fail("eager-position", name, lastPos(p), "a pass of the skipping loop must find the predicate false on the current element and then advance successfully, once each (tests=%d, advances=%d)", len(users), len(nexts))
+			}
+		}
+	}
 	c.Check(ok && nObj > 0, "eager-position", name, ctor.Pos(), "skip until f(current); nil when exhausted", "shape not recognised")
 	if next := iterMethod(c, nt, "Next"); next != nil {
 		nan := c.AnalyzeLoops(next)
@@ -1348,6 +1371,10 @@ func mapRules(c *core.Ctx, pkg string, pair bool) {
 			its := iterFieldsOf(nt)
 			if !(lit != nil && lit.Op == "lit" && len(its) == 1 && paramOf(fieldOf2(lit, its[0]), ctor, 0) && len(iterEvents(p)) == 0) {
 				ok, why = false, "Map must wrap the sequence without reading it; found "+short(lit)
+			}
+			// nil means empty: a wrapper is built only around a sequence known to be non-nil
+			if polarity(p, &ir.Term{Op: "bin", Aux: "==", Args: sorted2(ir.Nil, &ir.Term{Op: "param", Aux: ctor.Params[0].Name()})}) >= 0 {
+				ok, why = false, "Map wraps a possibly nil (empty) sequence into a non-nil iterator: its Next would be invoked on nil"
 			}
 		}
 	}
